@@ -112,6 +112,12 @@ pub mod tests;
 
 pub use backend::*;
 
+/// Verification hooks (only with `--cfg hipstr_verif`).
+#[cfg(hipstr_verif)]
+pub mod verif {
+    pub use crate::smart::{Inner, Kind, Smart, UpdateResult};
+}
+
 /// Thread-safe shared byte sequence.
 pub type HipByt<'borrow> = bytes::HipByt<'borrow, Arc>;
 
